@@ -36,8 +36,10 @@ S400 = {"InvalidRequestLine", "InvalidRequestMethod", "InvalidHTTPVersion", "Inv
 
 def term_class(t):
     if t[0] == "reject":
-        return ("reject", t[2])      # the class is reported, not compared: the property speaks of the
-    return t                         # point of rejection, not of the error class
+        # the class is reported, not compared: the property speaks of the point of rejection, not of the error class; what the parser does
+        # when asked for another request after a broken body (nothing / a request) is part of "the sequence of requests obtained"
+        return ("reject", t[2], ("more:%s" % (t[3].get("uri"),)) if len(t) > 3 and t[3] else "stop")
+    return t
 
 
 LIMITS = [{}, {}, {"limit_request_line": 30}, {"limit_request_line": 64, "limit_request_fields": 3},
